@@ -274,6 +274,11 @@ func (t *Term) write(sb *strings.Builder) {
 	case "mk-slice", "mk-map", "const-array":
 		// need "as" qualification for const arrays only
 	}
+	if t.Op == "const-array" && t.Args[0].Op != "lit" {
+		// cvc5 accepts only values in constant arrays: use one canonical declared array per sort instead
+		sb.WriteString(smtName(zarrName(t.Sort)))
+		return
+	}
 	if t.Op == "const-array" {
 		sb.WriteString("((as const " + t.Sort.String() + ") ")
 		t.Args[0].write(sb)
@@ -300,8 +305,20 @@ type declSet struct {
 
 func newDeclSet() *declSet { return &declSet{funs: map[string]string{}} }
 
+func zarrName(s *Sort) string {
+	return "zarr$" + strings.NewReplacer("(", "", ")", "", " ", "_").Replace(s.String())
+}
+
 func (d *declSet) collect(t *Term) {
 	if t == nil {
+		return
+	}
+	if t.Op == "const-array" && t.Args[0].Op != "lit" {
+		n := zarrName(t.Sort)
+		if _, ok := d.funs[n]; !ok {
+			d.funs[n] = fmt.Sprintf("(declare-fun %s () %s)", smtName(n), t.Sort.String())
+			d.order = append(d.order, n)
+		}
 		return
 	}
 	if t.UF {
